@@ -93,6 +93,12 @@ pub const REPS: usize = 4;
 /// level-synchronous breadth-first exploration of R3 up to `depth`; returns up to REPS shortest
 /// programs per abstract state in which the last opcode created an alias cycle
 pub fn cycle_programs(vocab: &[&'static str], depth: usize, max_states: usize) -> (Vec<Program>, SynthStats) {
+    let (c, _, st) = explore(vocab, depth, max_states);
+    (c, st)
+}
+
+/// the exploration proper: (cycle-closing programs, one program per abstract state of the last level, stats)
+pub fn explore(vocab: &[&'static str], depth: usize, max_states: usize) -> (Vec<Program>, Vec<Program>, SynthStats) {
     let mut root = Machine::new();
     root.track_graph = true;
     let mut seen: HashSet<Vec<u32>> = HashSet::new();
@@ -176,7 +182,8 @@ pub fn cycle_programs(vocab: &[&'static str], depth: usize, max_states: usize) -
         }
     }
     st.programs = out.len();
-    (out, st)
+    let leaves: Vec<Program> = frontier.iter().filter_map(|(_, reps)| reps.first().map(|r| Program { ops: r.clone() })).collect();
+    (out, leaves, st)
 }
 
 /// Steer the real generator to emit `prog` (protocol `p`): returns the fuzzer script, or None when
@@ -298,5 +305,70 @@ pub fn leak_sweep(depth_objects: usize, depth_containers: usize, stats: &mut eng
         st.evaluations = 0;
         stats.merge(st);
     }
+    out
+}
+
+pub struct CoverOutcome {
+    pub leaves: usize,
+    pub steered: usize,
+    pub unsteerable: usize,
+    pub states: u64,
+    pub found: Vec<engine::Found>,
+}
+
+/// State-cover leg (C01, C03, C17): one shortest program per abstract reference state reachable
+/// within `depth` opcodes of the two vocabularies (aliasing through DUP and the memo, in-place
+/// mutation, object construction) is steered through the real generator and judged by the
+/// property's oracle. `stride` > 1 samples every stride-th state.
+pub fn cover_sweep(prop: &'static str, depth_objects: usize, depth_containers: usize, stride: usize, known: &[engine::KnownFinding], stats: &mut engine::Stats) -> CoverOutcome {
+    let (_, mut leaves, st1) = explore(&VOCAB_OBJECTS, depth_objects, 3_000_000);
+    let (_, l2, st2) = explore(&VOCAB_CONTAINERS, depth_containers, 3_000_000);
+    leaves.extend(l2);
+    let leaves: Vec<Program> = leaves.into_iter().step_by(stride.max(1)).collect();
+    let trace = if prop == "C17" { crate::exec::Trace::Full } else { crate::exec::Trace::Light };
+    let nt = engine::n_threads();
+    let parts: Vec<(usize, usize, Vec<engine::Found>, engine::Stats)> = std::thread::scope(|s| {
+        let leaves = &leaves;
+        let hs: Vec<_> = (0..nt)
+            .map(|t| {
+                s.spawn(move || {
+                    let (mut steered, mut unsteerable) = (0, 0);
+                    let mut found = vec![];
+                    let mut st = engine::Stats::default();
+                    let mut i = t;
+                    while i < leaves.len() {
+                        let p = [1u8, 2, 3, 4, 5][i % 5];
+                        match steer(p, &leaves[i]) {
+                            Some(script) => {
+                                steered += 1;
+                                let sc = scenario_for(p, &leaves[i], script);
+                                let recs = crate::exec::run_scenario(&sc, trace, false);
+                                for v in engine::evaluate_any(prop, &sc, &recs, &mut st) {
+                                    if engine::known_match(known, &v).is_none() && found.len() < 10 {
+                                        found.push(engine::Found { index: i as u64, scenario: sc.clone(), violation: v });
+                                    }
+                                }
+                            }
+                            None => unsteerable += 1,
+                        }
+                        i += nt;
+                    }
+                    (steered, unsteerable, found, st)
+                })
+            })
+            .collect();
+        hs.into_iter().map(|h| h.join().unwrap()).collect()
+    });
+    let mut out = CoverOutcome { leaves: leaves.len(), steered: 0, unsteerable: 0, states: st1.states + st2.states, found: vec![] };
+    for (a, b, f, st) in parts {
+        out.steered += a;
+        out.unsteerable += b;
+        out.found.extend(f);
+        let mut st = st;
+        st.evaluations = 0;
+        st.calls = 0;
+        stats.merge(st);
+    }
+    out.found.sort_by_key(|f| f.index);
     out
 }
